@@ -278,12 +278,13 @@ func createFilesInTar(info *nfpm.Info, tw *tar.Writer) ([]MtreeEntry, int64, err
 }
 
 // mtreeTime returns the time the tar header of an entry stores: archive/tar
-// writes an unset (zero) modification time as the Unix epoch.
+// writes an unset (zero) modification time as the Unix epoch and rounds any
+// other to the nearest second.
 func mtreeTime(t time.Time) int64 {
 	if t.IsZero() {
 		return 0
 	}
-	return t.Unix()
+	return t.Round(time.Second).Unix()
 }
 
 func defaultStr(s, def string) string {
@@ -387,13 +388,14 @@ func createPkginfo(info *nfpm.Info, tw *tar.Writer, totalSize int64) (*MtreeEntr
 	}
 
 	size := buf.Len()
+	mtime := modtime.Get(info.MTime)
 
 	err = tw.WriteHeader(&tar.Header{
 		Typeflag: tar.TypeReg,
 		Mode:     0o644,
 		Name:     ".PKGINFO",
 		Size:     int64(size),
-		ModTime:  modtime.Get(info.MTime),
+		ModTime:  mtime,
 	})
 	if err != nil {
 		return nil, err
@@ -411,7 +413,7 @@ func createPkginfo(info *nfpm.Info, tw *tar.Writer, totalSize int64) (*MtreeEntr
 
 	return &MtreeEntry{
 		Destination: ".PKGINFO",
-		Time:        modtime.Get(info.MTime).Unix(),
+		Time:        mtreeTime(mtime),
 		Mode:        0o644,
 		Size:        int64(size),
 		Type:        files.TypeFile,
